@@ -101,8 +101,21 @@ func (u *Universe) Hash(k int) plumbing.Hash {
 	return plumbing.NewHash(fmt.Sprintf("%040x", 0xdead0000+k))
 }
 
-func (u *Universe) hashIdx(h plumbing.Hash) lib.Out {
+// IdxOf maps an object id back to its universe index (dangling ids included).
+func (u *Universe) IdxOf(h plumbing.Hash) (int, bool) {
 	if i, ok := u.byHash[h]; ok {
+		return i, true
+	}
+	for k := len(u.Hashes); k < len(u.Hashes)+8; k++ {
+		if u.Hash(k) == h {
+			return k, true
+		}
+	}
+	return 0, false
+}
+
+func (u *Universe) hashIdx(h plumbing.Hash) lib.Out {
+	if i, ok := u.IdxOf(h); ok {
 		return lib.Int(int64(i))
 	}
 	return lib.Str("hash:" + h.String())
@@ -247,7 +260,8 @@ func (u *Universe) refList(it storer.ReferenceIter, err error) lib.Out {
 		if r.Type() == plumbing.SymbolicReference {
 			code = 2*int64(u.byName[string(r.Target())]) + 1
 		} else {
-			code = 2 * int64(u.byHash[r.Hash()])
+			k, _ := u.IdxOf(r.Hash())
+			code = 2 * int64(k)
 		}
 		l = append(l, ent{n, code, lib.List(u.nameIdx(string(r.Name())), u.refval(r))})
 		return nil
@@ -449,6 +463,14 @@ func (u *Universe) Run(st storage.Storer, ops []any) lib.Out {
 		outs = append(outs, u.Step(st, o.([]any)))
 	}
 	return lib.List(outs...)
+}
+
+// RefsListing is the canonical listing of all references of a storer.
+func (u *Universe) RefsListing(st storage.Storer) lib.Out { return u.refList(st.IterReferences()) }
+
+// ObjsListing is the canonical listing of all objects of a storer.
+func (u *Universe) ObjsListing(st storage.Storer) lib.Out {
+	return u.objList(st.IterEncodedObjects(plumbing.AnyObject))
 }
 
 // Snapshot reads the whole observable state of a storer (o_store in Coq).
